@@ -124,6 +124,8 @@ struct World {
     rx_sleep_until: Option<Duration>,
     fault_budget: u32,
     rx_on_stack: bool,
+    clock_reading_cost: bool,
+    clock_readings: u64,
     aborted: bool,
     /// number of violations recorded when the run was aborted: what the wreckage reports afterwards is dropped
     violations_at_abort: Option<usize>,
@@ -260,7 +262,18 @@ impl verif::Hooks for InlineHooks {
     }
 
     fn now(&self) -> Duration {
-        w(&self.sh, |w| w.now)
+        // (running code takes time: in runs with a clock-reading cost every reading is a nanosecond later than the
+        // previous one, so the code under test never sees zero elapsed time)
+        let sh = &self.sh;
+        w(sh, |w| {
+            if w.clock_reading_cost {
+                w.clock_readings += 1;
+                sh.clock_ahead_ns.store(w.clock_readings, std::sync::atomic::Ordering::Relaxed);
+                w.now + Duration::from_nanos(w.clock_readings)
+            } else {
+                w.now
+            }
+        })
     }
 
     fn timer(&self, deadline: Duration, _waker: &Waker) {
@@ -1350,6 +1363,8 @@ fn new_world(cap: usize, focus: u8, fault_budget: u32, retry_storm: bool) -> Wor
                 rx_sleep_until: None,
                 fault_budget,
                 rx_on_stack: false,
+                clock_reading_cost: false,
+                clock_readings: 0,
                 aborted: false,
                 violations_at_abort: None,
                 focus,
@@ -1403,6 +1418,7 @@ impl Engine for ChanInline {
         let retry_storm = ch.chance(1, if focus == 8 { 5 } else { 12 });
         let fault_budget = if retry_storm { 45 } else { fault_budget };
         let teardown = ch.chance(1, 12);
+        let reading_cost = ch.chance(1, 3);
         let early_drop = ch.chance(1, 6);
         let w_rx = 1 + ch.choose(6);
         let w_actor = 1 + ch.choose(6);
@@ -1420,7 +1436,11 @@ impl Engine for ChanInline {
 
         let (sender, receiver): (Sender<Chan>, Receiver<Chan>) = emit_batcher::bounded(cap);
         let sh: ShRef = Arc::new(Sh {
-            world: Mutex::new(new_world(cap, focus, fault_budget, retry_storm)),
+            world: Mutex::new({
+                let mut world = new_world(cap, focus, fault_budget, retry_storm);
+                world.clock_reading_cost = reading_cost;
+                world
+            }),
             choices: Mutex::new(std::mem::replace(ch, Choices::from_record(&[]))),
             ext_choose: None,
             inline: true,
